@@ -233,10 +233,25 @@ def r4_argument_order(ctx):
     wiring.check_swapped(ctx, ("src/votekit/",), "package")
 
 
+def r5_selector_partition(ctx):
+    """TopTwo and Alaska strike `plurality.get_remaining()` from every ballot before their second stage, so their
+    documented composition needs the Plurality selector to return, as remaining, exactly the candidates it did not
+    seat (tie losers first, then every lower group).  Decided by C10.R5's shape rules on elect_cands_from_set_ranking."""
+    from rules import c10
+    sub = type(ctx)(ctx.prog, ctx.prop, ctx.tier)
+    c10.r5_groups_obey(sub)
+    for o in sub.obs:
+        o.rule = "C13.R5"
+        ctx.obs.append(o)
+    if len(sub.obs) < 4:
+        ctx.vanished(f"selector obligations: only {len(sub.obs)}")
+
+
 RULES = [
     ("C13.R1", r1_aliases, 10, "IRV / SNTV / SequentialRCV are thin constructor-only subclasses with the documented arguments"),
     ("C13.R2", r2_toptwo, 5, "TopTwo: Plurality(2) role mapping, then Plurality(1) runoff renumbered 2"),
     ("C13.R4", r4_argument_order, 1, "no call binds an argument to a differently named parameter while a same-named parameter exists (package-wide)"),
+    ("C13.R5", r5_selector_partition, 4, "prerequisite: the Plurality selector's `remaining` is exactly the unseated candidates (struck by TopTwo / Alaska)"),
     ("C13.R3", r3_alaska, 14, "Alaska: Plurality(m_1) then STV(m_2,...) with +1 renumbering; get_profile agrees with the run"),
 ]
 
